@@ -203,6 +203,14 @@ def gen_plug_case(rng, core):
     where = 'config' if cat == 'loader' else rng.choice(['cmdline', 'config', 'dodo'])
     case = dict(BLANK, path='plug', cat=cat, layers=layers, name=name, where=where,
                 core=sorted(core[cat]))
+    present = [l for l in LAYER3 if layers[l] is not None]
+    if present and rng.random() < 0.22:
+        # an entry that does not load: no / two colons, a module that does not exist, an attribute the module lacks
+        l = rng.choice(present)
+        n = rng.choice(pool + ['px', 'px'])
+        bad = rng.choice(['nomod_xyz:X', 'optcfglib:NoSuchAttr', 'optcfglib', 'optcfglib:%s_api:x' % letter])
+        layers[l] = [e for e in layers[l] if e[0] != n] + [[n, bad]]
+        case['broken'] = [l, n, bad]
     if where == 'config':
         case['cfg_at'] = [rng.choice(LAYER3), 'GLOBAL' if cat == 'loader' else rng.choice(['GLOBAL', 'run'])]
     elif where == 'cmdline':
@@ -212,8 +220,10 @@ def gen_plug_case(rng, core):
 
 
 def plug_request(case):
+    attrs = ['%s_%s' % (c, l) for c in 'RBL' for l in LAYER3]
     return {'model': 'opt', 'op': 'plugpick', 'cat': case['cat'], 'where': case['where'], 'core': case['core'],
-            'layers': [case['layers'][l] or [] for l in LAYER3], 'name': case['name']}
+            'layers': [case['layers'][l] or [] for l in LAYER3], 'name': case['name'],
+            'mods': [['optcfglib', attrs]]}
 
 
 def impl_plug(case, workdir):
@@ -304,6 +314,8 @@ def judge_plug(case, impl, model):
         div.append('M4/plug: %s name %r written in %s with plugin layers %s: doit %s, the model %s %s'
                    % (case['cat'], case['name'], case.get('cfg_at') or case['where'], case['layers'],
                       {k: impl.get(k) for k in ('pick', 'cls', 'exc', 'msg', 'exit')}, model.get('pick'), want_cls))
+    if case.get('broken'):
+        return viol, div        # a plugin entry that does not load: correspondence only (the property does not speak about it)
     # (P) the statement, from the structured input alone
     defined = [l for l in reversed(LAYER3) if case['layers'][l] and case['name'] in [n for n, _ in case['layers'][l]]]
     if defined:
